@@ -9,6 +9,11 @@
 (* error, or when the budget is used up.  Save rewinds its reader before   *)
 (* every attempt and removes the file after a failed attempt on a backend  *)
 (* without atomic replace; List remembers the names it has reported.       *)
+(* A fault may also be a permanent error that strikes after part of the    *)
+(* data went over ("ppartial"), and the wrapped backend's listing may      *)
+(* differ from attempt to attempt (`vary`: sizes that change while a file  *)
+(* is being written or replaced, a different order) - the set of names     *)
+(* stays the same.                                                         *)
 (* Init chooses operation, backend kind, feature flag and the whole script *)
 (* so one TLC run covers all scripts up to MaxLen.                         *)
 (***************************************************************************)
@@ -17,47 +22,60 @@ EXTENDS RetryProps, TLC
 CONSTANTS MaxLen,   \* scripts have 0..MaxLen explicit faults
           Budget,   \* attempts the retry loop makes before giving up
           Ops,      \* subset of {"save","load","stat","remove","list"}
-          Twin,     \* "none" | "no_rewind" | "no_cleanup" | "retry_perm" | "no_dedup"
+          Twin,     \* "none" | "no_rewind" | "no_cleanup" | "retry_perm" | "no_dedup" |
+                    \* "no_cleanup_perm" (no cleanup after a permanent error) | "dedup_info" (List remembers name+size)
           Record
 
 Names == <<1, 2, 3>>      \* files the wrapped backend lists
 
-Faults(op) == CASE op = "save"   -> {"before", "partial", "after", "perm"}
-                [] op = "load"   -> {"before", "partial", "after", "perm", "notexist"}
+Faults(op) == CASE op = "save"   -> {"before", "partial", "after", "perm", "ppartial"}
+                [] op = "load"   -> {"before", "partial", "after", "perm", "ppartial", "notexist"}
                 [] op = "stat"   -> {"before", "perm", "notexist"}
                 [] op = "remove" -> {"before", "after", "perm"}
                 [] op = "list"   -> {"mid0", "mid1", "mid2", "after", "perm"}
 
 SeqsUpTo(S, k) == UNION {[1..m -> S] : m \in 0..k}
 
-VARIABLES op, flag, atomic, script, tail,
+\* how the listing of the wrapped backend differs between attempts (list only)
+Varies == {"same", "size", "order", "both"}
+
+VARIABLES op, flag, atomic, script, tail, vary,
           tries,      \* attempts made
           faults,     \* faults applied so far
           file,       \* save/remove: "absent" | "full" | "partial" under the final name
           seen,       \* load: what the last consumer call read / stat: info
           reported,   \* list: names handed to fn
+          infos,      \* list: <<name, size>> pairs handed to fn (what the "dedup_info" twin remembers)
           phase,      \* "try" | "cleanup" | "done"
           ok
-vars == <<op, flag, atomic, script, tail, tries, faults, file, seen, reported, phase, ok>>
+vars == <<op, flag, atomic, script, tail, vary, tries, faults, file, seen, reported, infos, phase, ok>>
 
 Init ==
   /\ op \in Ops /\ flag \in BOOLEAN /\ atomic \in BOOLEAN
   /\ script \in SeqsUpTo(Faults(op), MaxLen) /\ tail \in {"ok", "repeat"}
   /\ (tail = "repeat" => script # <<>>)
   /\ (op # "save" => atomic)             \* atomic replace only matters for Save
+  /\ vary \in Varies /\ (op # "list" => vary = "same")
+  /\ infos = {}
   /\ tries = 0 /\ faults = <<>>
   /\ file = IF op = "remove" THEN "full" ELSE "absent"
   /\ seen = "none" /\ reported = <<>> /\ phase = "try" /\ ok = FALSE
 
 FaultAt(k) == IF k <= Len(script) THEN script[k] ELSE IF tail = "ok" THEN "ok" ELSE script[Len(script)]
 
-Rec == [op |-> op, flag |-> flag, atomic |-> atomic, faults |-> faults, ok |-> ok,
+Rec == [op |-> op, flag |-> flag, atomic |-> atomic, vary |-> vary, faults |-> faults, ok |-> ok,
         final |-> IF op \in {"save", "remove"} THEN file ELSE seen,
         reported |-> reported, names |-> Names, second |-> "n/a", third |-> "n/a"]
 
-\* names a listing attempt hands to fn: the first j entries, minus those already reported
-ListSome(j) == LET cand == SubSeq(Names, 1, j)
-               IN  reported \o SelectSeq(cand, LAMBDA n : Twin = "no_dedup" \/ n \notin Range(reported))
+\* the listing the wrapped backend produces at attempt k: order and sizes may differ between attempts
+OrderAt(k) == IF vary \in {"order", "both"} /\ k % 2 = 0 THEN [i \in 1..Len(Names) |-> Names[Len(Names) + 1 - i]] ELSE Names
+SizeAt(k)  == IF vary \in {"size", "both"} THEN k ELSE 1
+Fresh(n, k) == CASE Twin = "no_dedup"   -> TRUE
+                 [] Twin = "dedup_info" -> <<n, SizeAt(k)>> \notin infos
+                 [] OTHER               -> n \notin Range(reported)
+\* names attempt k hands to fn: the first j entries of its listing, minus those already reported
+ListNew(j, k)  == SelectSeq(SubSeq(OrderAt(k), 1, j), LAMBDA n : Fresh(n, k))
+ListSome(j, k) == reported \o ListNew(j, k)
 
 Attempt ==
   /\ phase = "try"
@@ -71,28 +89,29 @@ Attempt ==
      IN
      /\ tries' = tries + 1 /\ faults' = Append(faults, f)
      /\ file' = CASE op = "save" /\ f \in {"ok", "after"}  -> content
-                  [] op = "save" /\ f = "partial" /\ ~atomic -> "partial"
+                  [] op = "save" /\ f \in {"partial", "ppartial"} /\ ~atomic -> "partial"
                   [] op = "remove" /\ f \in {"ok", "after"} -> "absent"
                   [] OTHER -> file
      /\ seen' = CASE op = "load" /\ f \in {"ok", "after"} -> "full"
-                  [] op = "load" /\ f = "partial" -> "partial"
+                  [] op = "load" /\ f \in {"partial", "ppartial"} -> "partial"
                   [] op = "stat" /\ f = "ok" -> "right"
                   [] OTHER -> seen
-     /\ reported' = IF op # "list" THEN reported
-                    ELSE CASE f \in {"ok", "after"} -> ListSome(3)
-                           [] f = "mid0" -> ListSome(0) [] f = "mid1" -> ListSome(1) [] f = "mid2" -> ListSome(2)
-                           [] OTHER -> reported
+     /\ LET j == CASE f \in {"ok", "after"} -> 3 [] f = "mid1" -> 1 [] f = "mid2" -> 2 [] OTHER -> 0
+        IN IF op # "list" THEN UNCHANGED <<reported, infos>>
+           ELSE /\ reported' = ListSome(j, tries + 1)
+                /\ infos' = infos \cup {<<n, SizeAt(tries + 1)>> : n \in Range(ListNew(j, tries + 1))}
      /\ ok' = ~failed
-     /\ phase' = IF failed /\ op = "save" /\ ~atomic /\ Twin # "no_cleanup" THEN "cleanup"
+     /\ phase' = IF failed /\ op = "save" /\ ~atomic /\ Twin # "no_cleanup"
+                     /\ ~(Twin = "no_cleanup_perm" /\ Permanent(Rec, f)) THEN "cleanup"
                  ELSE IF stop THEN "done" ELSE "try"
-  /\ UNCHANGED <<op, flag, atomic, script, tail>>
+  /\ UNCHANGED <<op, flag, atomic, script, tail, vary>>
 
 \* after a failed Save attempt on a backend without atomic replace the file is removed
 Cleanup ==
   /\ phase = "cleanup"
   /\ file' = "absent"
   /\ phase' = IF (Permanent(Rec, faults[Len(faults)]) /\ Twin # "retry_perm") \/ tries >= Budget THEN "done" ELSE "try"
-  /\ UNCHANGED <<op, flag, atomic, script, tail, tries, faults, seen, reported, ok>>
+  /\ UNCHANGED <<op, flag, atomic, script, tail, vary, tries, faults, seen, reported, infos, ok>>
 
 Finished == phase = "done" /\ UNCHANGED vars
 Next == Attempt \/ Cleanup \/ Finished
@@ -108,5 +127,5 @@ ListNever == ListOnce(Rec)
 \* within the budget a transient fault script ends well (not demanded by the statement; sanity of the model)
 Progress  == (phase = "done" /\ tail = "ok" /\ Len(script) < Budget /\ \A i \in DOMAIN script : ~Permanent(Rec, script[i])) => ok
 
-EmitVec == (Record /\ phase = "done" /\ flag) => PrintT("VEC " \o ToString(<<op, atomic, script, tail>>))
+EmitVec == (Record /\ phase = "done" /\ flag) => PrintT("VEC " \o ToString(<<op, atomic, script, tail, vary>>))
 =============================================================================
